@@ -4,7 +4,7 @@
    (step index, tag, ok).  It is extracted to OCaml (volume) and also evaluated by vm_compute
    (cross-validation of the extraction).  No proofs in this file. *)
 From Coq Require Import ZArith List Bool Arith.
-From SpadeV Require Import Num.F64 Num.Decode Geom.Pred Gen.Prelude Num.ValidSpec Obs.State Obs.Spec Vmap.Model Check.Codes.
+From SpadeV Require Import Num.F64 Num.Decode Num.Decode2 Geom.Pred Gen.Prelude Num.ValidSpec Obs.State Obs.Spec Obs.Query Vmap.Model Check.Codes.
 Import ListNotations.
 
 (* ------------------------------------------------------------------ parsing the state line *)
@@ -241,6 +241,150 @@ Definition check_mit (x y : Z) (res : list Z) : list (tag * bool) :=
   | _ => [(T_parse, false)]
   end.
 
+(* ------------------------------------------------------------------ queries *)
+Definition with_points (p : obs) (extra : list Z) : option (list pnt * list pnt * Z) :=
+  match decode_points_e (coord_bits p ++ extra) with
+  | Some (all, em) => Some (firstn (nV p) all, skipn (nV p) all, em)
+  | None => None
+  end.
+
+Definition parse_loc (res : list Z) : option locres :=
+  match res with
+  | [k; i] =>
+      if (k =? K_vertex)%Z then Some (LVertex (Z.to_nat i))
+      else if (k =? K_edge)%Z then Some (LEdge (Z.to_nat i))
+      else if (k =? K_face)%Z then Some (LFace (Z.to_nat i))
+      else if (k =? K_outside)%Z then Some (LOutside (Z.to_nat i))
+      else None
+  | [k] => if (k =? K_none)%Z then Some LNone else None
+  | _ => None
+  end.
+
+Definition check_loc (p : obs) (x y : Z) (res : list Z) : list (tag * bool) :=
+  match with_points p [x; y], parse_loc res with
+  | Some (pts, [q], _), Some r => [(T_locate, locspec_b p pts q r)]
+  | _, _ => [(T_parse, false)]
+  end.
+
+(* locate_vertex: Some v exactly when the position is a vertex *)
+Definition check_locv (p : obs) (x y : Z) (res : list Z) : list (tag * bool) :=
+  match with_points p [x; y] with
+  | Some (pts, [q], _) =>
+      match res with
+      | [k; v] => [(T_locate, (k =? K_some)%Z && locspec_b p pts q (LVertex (Z.to_nat v)))]
+      | [k] => [(T_locate, (k =? K_none)%Z && negb (existsb (fun v => pnt_eqb (pos pts v) q) (seq 0 (nV p))))]
+      | _ => [(T_parse, false)]
+      end
+  | _ => [(T_parse, false)]
+  end.
+
+Definition check_nn (p : obs) (x y : Z) (res : list Z) : list (tag * bool) :=
+  match with_points p [x; y] with
+  | Some (pts, [q], _) =>
+      match res with
+      | [k; v] => [(T_nn, (k =? K_some)%Z && nn_b p pts q (Some (Z.to_nat v)))]
+      | [k] => [(T_nn, (k =? K_none)%Z && nn_b p pts q None)]
+      | _ => [(T_parse, false)]
+      end
+  | _ => [(T_parse, false)]
+  end.
+
+Definition counted (res : list Z) : option (list nat) :=
+  match res with
+  | n :: t => if length t =? Z.to_nat n then Some (map Z.to_nat t) else None
+  | [] => None
+  end.
+
+Definition check_rect (p : obs) (edges : bool) (args res : list Z) : list (tag * bool) :=
+  match args, counted res with
+  | [x1; y1; x2; y2], Some got =>
+      match with_points p [x1; y1; x2; y2] with
+      | Some (pts, [lo; hi], _) =>
+          [(T_shape, if edges then edges_in_rect_ok p pts lo hi got else vertices_in_rect_ok p pts lo hi got)]
+      | _ => [(T_parse, false)]
+      end
+  | _, _ => [(T_parse, false)]
+  end.
+
+Definition check_circ (p : obs) (edges : bool) (args res : list Z) : list (tag * bool) :=
+  match args, counted res with
+  | [cx; cy; r2], Some got =>
+      match with_points p [cx; cy], decode r2 with
+      | Some (pts, [c], em), Some (rm, re) =>
+          let r2' := (rm, (re - 2 * em)%Z) in
+          [(T_shape, if edges then edges_in_circle_ok p pts c r2' got else vertices_in_circle_ok p pts c r2' got)]
+      | _, _ => [(T_parse, false)]
+      end
+  | _, _ => [(T_parse, false)]
+  end.
+
+(* hull query: size, forward list, reverse list *)
+Definition check_hull (p : obs) (res : list Z) : list (tag * bool) :=
+  match res with
+  | hs :: n :: t =>
+      let fwd := map Z.to_nat (firstn (Z.to_nat n) t) in
+      match skipn (Z.to_nat n) t with
+      | m :: t2 =>
+          let bwd := map Z.to_nat t2 in
+          [(T_hull_iter, (Z.to_nat hs =? o_hs p) && list_eqb Nat.eqb fwd (o_hull p)
+                          && list_eqb Nat.eqb (List.rev bwd) fwd && (length t2 =? Z.to_nat m))]
+      | [] => [(T_parse, false)]
+      end
+  | _ => [(T_parse, false)]
+  end.
+
+(* constraint admission (C12) *)
+Definition check_canc (p : obs) (a b : Z) (res : list Z) : list (tag * bool) :=
+  match obs_points p, res with
+  | Some pts, [r] =>
+      let va := Z.to_nat a in let vb := Z.to_nat b in
+      [(T_admission, Z.eqb r (if crossspec_b p pts (pos pts va) (pos pts vb) then 0 else 1)%Z)]
+  | _, _ => [(T_parse, false)]
+  end.
+
+Definition check_confv (p : obs) (a b : Z) (res : list Z) : list (tag * bool) :=
+  match obs_points p, counted res with
+  | Some pts, Some got =>
+      [(T_admission, conflicts_ok p pts (pos pts (Z.to_nat a)) (pos pts (Z.to_nat b)) got)]
+  | _, _ => [(T_parse, false)]
+  end.
+
+Definition check_isc (p : obs) (args res : list Z) (listed : bool) : list (tag * bool) :=
+  match args with
+  | [x1; y1; x2; y2] =>
+      match with_points p [x1; y1; x2; y2] with
+      | Some (pts, [a; b], _) =>
+          if listed then
+            match counted res with
+            | Some got => [(T_admission, conflicts_ok p pts a b got)]
+            | None => [(T_parse, false)]
+            end
+          else
+            match res with
+            | [r] =>
+                let must := crossspec_b p pts a b in
+                let may := existsb (touched_by_endpoint p pts a b) (seq 0 (o_ne p)) in
+                [(T_admission, if (r =? 1)%Z then must || may else negb must)]
+            | _ => [(T_parse, false)]
+            end
+      | _ => [(T_parse, false)]
+      end
+  | _ => [(T_parse, false)]
+  end.
+
+(* try_add_constraint: either a connected chain of constraint edges a -> b (in the new state), or the empty list and no change *)
+Definition check_tryc (p n : obs) (a b : Z) (res : list Z) : list (tag * bool) :=
+  match obs_points p, obs_points n, counted res with
+  | Some pts, Some npts, Some got =>
+      let va := Z.to_nat a in let vb := Z.to_nat b in
+      let blocked := crossspec_b p pts (pos pts va) (pos pts vb) in
+      match got with
+      | [] => [(T_admission, blocked || (va =? vb)); (T_try_atomic, obs_eqb p n)]
+      | _ => [(T_admission, negb blocked); (T_chain, chain_ok n npts va vb got)]
+      end
+  | _, _, _ => [(T_parse, false)]
+  end.
+
 Definition check_op (c : cfg) (p : obs) (op : Z) (args res : list Z) (n : obs) : list (tag * bool) :=
   if existsb (Z.eqb K_skip) res || existsb (Z.eqb K_panic) res || existsb (Z.eqb K_hang) res then [] else
   if (op =? OP_ins)%Z then
@@ -260,6 +404,20 @@ Definition check_op (c : cfg) (p : obs) (op : Z) (args res : list Z) (n : obs) :
   else if (op =? OP_valc)%Z then match args with [x] => check_valc x res | _ => [(T_parse, false)] end
   else if (op =? OP_valv)%Z then match args with [x; y] => check_valv x y res | _ => [(T_parse, false)] end
   else if (op =? OP_mit)%Z then match args with [x; y] => check_mit x y res | _ => [(T_parse, false)] end
+  else if (op =? OP_loc)%Z then match args with [x; y] => check_loc p x y res | _ => [(T_parse, false)] end
+  else if (op =? OP_loch)%Z then match args with [x; y; _] => check_loc p x y res | _ => [(T_parse, false)] end
+  else if (op =? OP_locv)%Z then match args with [x; y] => check_locv p x y res | _ => [(T_parse, false)] end
+  else if (op =? OP_nn)%Z then match args with [x; y] => check_nn p x y res | _ => [(T_parse, false)] end
+  else if (op =? OP_vrect)%Z then check_rect p false args res
+  else if (op =? OP_erect)%Z then check_rect p true args res
+  else if (op =? OP_vcirc)%Z then check_circ p false args res
+  else if (op =? OP_ecirc)%Z then check_circ p true args res
+  else if (op =? OP_hull)%Z then check_hull p res
+  else if (op =? OP_canc)%Z then match args with [a; b] => check_canc p a b res | _ => [(T_parse, false)] end
+  else if (op =? OP_confv)%Z then match args with [a; b] => check_confv p a b res | _ => [(T_parse, false)] end
+  else if (op =? OP_isc)%Z then check_isc p args res false
+  else if (op =? OP_confp)%Z then check_isc p args res true
+  else if (op =? OP_tryc)%Z then match args with [a; b] => check_tryc p n a b res | _ => [(T_parse, false)] end
   else [].
 
 (* ------------------------------------------------------------------ the fold *)
